@@ -17,7 +17,7 @@ assert not status.strip(), "/repo has local changes"
 for sid in seeds:
     d = f"/verif/seeded/{sid}"
     meta = json.load(open(f"{d}/meta.json"))
-    props = a.props.split(",") if a.props else ([p for p in claimed] if a.all_props else [meta["property"]])
+    props = a.props.split(",") if a.props else ([p for p in claimed] if a.all_props else [meta.get("property") or sid.split("-")[0]])
     r = subprocess.run(f"git -C /repo apply {d}/patch.diff", shell=True, capture_output=True, text=True)
     if r.returncode:
         print(sid, "PATCH-FAILED", r.stderr[:100]); continue
